@@ -535,13 +535,28 @@ Definition answers (F : forest) (p : paradigm) (cancel_before : bool) (in_item :
     end
   end.
 
+(* The message (the only public carrier of the node path: the wrapper type is private).
+   internalError.Error() prints the message of the error it holds and then, when its node path is
+   not empty, "node path: [k1, k2, ...]"; fmt.Errorf("...%w") and a typed error's Error() embed
+   the message of what they wrap.  [msg_paths] = the node paths printed, in order of appearance;
+   the last one is what a reader (and the harness's parser) takes as the failing node path. *)
+Fixpoint msg_paths (e : err) : list (list string) :=
+  match e with
+  | Internal _ _ np o => msg_paths o ++ match np with [] => [] | _ => [np] end
+  | Wrapf e' => msg_paths e'
+  | CustomW _ _ e' => msg_paths e'
+  | _ => []
+  end.
+Definition msg_path (e : err) : list string := last (msg_paths e) [].
+
 (* the projected observables of an error value *)
 Record proj : Type := mkProj {
   p_internal : option (ityp * list action * list string * bool);  (* errors.As for the wrapper: type, stream-wrapper path, node path, is-it-the-outermost *)
   p_is : list bool;          (* errors.Is for the sentinels below *)
   p_as : list (option N);    (* errors.As for custom types 0, 1 and 2 (the wrapping one) *)
   p_panic : option N;        (* payload of a recovered panic on the chain *)
-  p_interrupt : bool         (* ExtractInterruptInfo *)
+  p_interrupt : bool;        (* ExtractInterruptInfo *)
+  p_msg : list string        (* the node path printed last in err.Error() *)
 }.
 
 Definition is_targets : list err :=
@@ -555,5 +570,6 @@ Definition project_gen (fixed : bool) (e : err) : proj :=
      p_is := map (fun t => is_gen fixed t e) is_targets;
      p_as := [as_custom_gen fixed 0 e; as_custom_gen fixed 1 e; as_custom_gen fixed 2 e];
      p_panic := as_panic_gen fixed e;
-     p_interrupt := extract_interrupt_gen fixed e |}.
+     p_interrupt := extract_interrupt_gen fixed e;
+     p_msg := msg_path e |}.
 Definition project := project_gen true.
